@@ -31,6 +31,9 @@ def build(case):
     n = case["n"]
     vals = gen.distinct_values(n * (1 + case["n_exog"]), case["vseed"])
     y = gen.build_series(vals[:n], case["start"], case["index_kind"])
+    if case.get("dtype") == "int64":
+        # integer-valued observations stored with an integer dtype (still pairwise distinct)
+        y = pd.Series((y.to_numpy() * 8).astype("int64"), index=y.index)
     X = None
     if case["n_exog"]:
         cols = {}
@@ -322,6 +325,7 @@ def cases(draw, strategy=None, allow_exog=True, feasible_bias=9):
         "fh_kind": draw(st.sampled_from(["list", "array", "fh", "int"])),
         "fh_at_predict": draw(st.sampled_from(["none", "same"])),
         "scitype_arg": draw(st.sampled_from(["infer", "explicit"])),
+        "dtype": draw(st.sampled_from(["float64", "float64", "int64"])),
     }
     return c
 
